@@ -189,6 +189,113 @@ def encCert (mode11 : Bool) (base : Option Str) (cfg : Cfg β) (d : List (DQuad 
     forestOK F d && decide (toRdf mode11 base doc = some (denForest cfg.label F (encStart F)).1)
   | _, _ => false
 
+
+/-! ### natural hypotheses of the encoder theorem (`encoder_roundtrip_natural_partial`)
+
+  Every condition below is decidable and LOCAL: it speaks about one IRI of the dataset, one prefix the
+  encoder declares, or the configuration — never about `toRdf` of the whole document. The driver
+  evaluates them for every encoder case of the harness (op `jl.cert`, flags `lbl ctx loc struct`). -/
+
+/-- the namespace the encoder writes into `@context` for the prefix `p` (`ExpandPrefix(PrefixReference{Prefix: p})`) -/
+def ctxEntry (E : Enc) (p : Str) : Option Str :=
+  (Prefix.expand E.pm ⟨utf8Encode p, []⟩).map utf8Decode
+
+/-- a prefix name the fragment semantics accepts as a term and that cannot be mistaken for anything else:
+    not empty, not `_`, no `:` or `/`, not of keyword form and not starting with `@` (the last condition
+    is a limit of the fragment `Spec.JsonLdFragment.processCtxObj`, which refuses every `@…` member
+    it does not know; `isPrefixTerm` of the encoder only excludes the keyword form) -/
+def pfxNameOK (p : Str) : Bool :=
+  !(p == [] || p == [cUnderscore] || p.contains cColon || p.contains cSlash || isKeywordForm p ||
+    p.head? == some cAt)
+
+/-- the scheme of `v` (what precedes its first colon) is none of `names`, unless `//` follows -/
+def schemeFree (names : List Str) (v : Str) : Bool :=
+  match splitColon v with
+  | some (s, rest) => rest.take 2 == [cSlash, cSlash] || !names.contains s
+  | none => true
+
+/-- the prefixes the encoder marks as used, in order of first use (`GetUsedPrefixes`) -/
+def usedPrefixes (cfg : Cfg β) (d : List (DQuad β)) (ord ord2 : List (Term β)) : List Str :=
+  let D := dbuild d
+  let B := D.builder none
+  match (if D.graphNames.contains none then B.exportResourcesV Opts.default ord ord2 (d.length + 1) else some []) with
+  | none => []
+  | some rs => dedupStr (buildRoots (mkEnc cfg) cfg.label B rs []).2
+
+/-- the prefix entries of the `@context` the encoder writes: `(prefix, namespace)` -/
+def declared (cfg : Cfg β) (d : List (DQuad β)) (ord ord2 : List (Term β)) : List (Str × Str) :=
+  (usedPrefixes cfg d ord ord2).filterMap fun p => (ctxEntry (mkEnc cfg) p).map fun ns => (p, ns)
+
+/-- **H-ctx**: the `@context` the encoder declares is one a JSON-LD reader accepts and reads as intended:
+    the base (if any) is an absolute IRI; every declared prefix is a usable term (`pfxNameOK`) mapped to
+    an absolute IRI ending in a gen-delim character whose own scheme is not a declared prefix
+    (otherwise the namespace itself would be expanded as a compact IRI); and no IRI of the dataset has a
+    declared prefix as its scheme (finding C10-K2, here relative to the prefixes actually declared). -/
+def ctxOK (cfg : Cfg β) (d : List (DQuad β)) (ord ord2 : List (Term β)) : Bool :=
+  let decl := declared cfg d ord ord2
+  let names := decl.map (·.1)
+  (match cfg.base with | some b => absIri b | none => true) &&
+  decl.all (fun e => pfxNameOK e.1 && absIri e.2 && endsGenDelim e.2 && schemeFree names e.2) &&
+  d.all (fun q => (quadIris q).all (schemeFree names))
+
+/-- the prefix table gives back the IRI it shortened: C13's `compact_expand` seen through the UTF-8
+    conversions between Go strings (bytes) and IRIs (code points) -/
+def compactOK (E : Enc) (v : Str) : Bool :=
+  match compactPrefix E v with
+  | none => true
+  | some (p, r) => (ctxEntry E p).any (fun ns => ns ++ r == v)
+
+/-- the encoder writes `v` (a value of `@id`) as a compact IRI -/
+def usesCompact (E : Enc) (v : Str) : Bool :=
+  match compactPrefix E v with
+  | some (_, r) => r.take 2 != [cSlash, cSlash]
+  | none => false
+
+/-- a reference relative to the base that the encoder writes for `v` is read back as `v`: it is not taken
+    for a compact IRI or an absolute IRI (its part before the first colon is neither `_`, nor a declared
+    prefix, nor of scheme form, and `//` does not follow the colon) and RFC 3986 §5.2 resolves it to `v`
+    (C13's `relativize_sound` seen through the UTF-8 conversions, outside the classes of C10-K1) -/
+def relOK (E : Enc) (names : List Str) (bs v : Str) : Bool :=
+  usesCompact E v ||
+  match E.base with
+  | none => true
+  | some b =>
+    match Prefix.relativizeB b (utf8Encode v) with
+    | .some rel =>
+      let r := utf8Decode rel
+      isKeywordForm r || colonAfterFirst r ||
+      ((match (if colonAfterFirst r then splitColon r else none) with
+        | some (p, s) => p != [cUnderscore] && s.take 2 != [cSlash, cSlash] && !names.contains p && !isScheme p
+        | none => true) && Spec.RFC3986Lite.resolve bs r == v)
+    | _ => true
+
+/-- IRIs in `@id` position: subjects and objects -/
+def docIris (q : DQuad β) : List Str := termIris q.t.s ++ (match q.t.o with | .iri v => [v] | _ => [])
+
+/-- **H-loc**: every IRI of the dataset is shortened invertibly (`compactOK`), and with a base every
+    subject / object IRI that is written as a relative reference resolves back (`relOK`) -/
+def locOK (cfg : Cfg β) (d : List (DQuad β)) (ord ord2 : List (Term β)) : Bool :=
+  let E := mkEnc cfg
+  let names := (declared cfg d ord ord2).map (·.1)
+  d.all fun q => (quadIris q).all (compactOK E) &&
+    (match cfg.base with
+     | some bs => (docIris q).all (relOK E names bs)
+     | none => true)
+
+/-- **H-lbl**: no blank node label is empty (`_:` alone is not a blank node identifier) -/
+def labelsOK (cfg : Cfg β) (d : List (DQuad β)) : Bool :=
+  d.all fun q => (termBN q.t.s ++ termBN q.t.o).all fun b => cfg.label b != []
+
+/-- **H-struct**: the export of the resource-list builder (C17) covers the dataset: the forest of the
+    exported resources validates against `d` (each quad once, inlined blank nodes distinct and not
+    referenced by identifier). Independent of JSON-LD: no context, no IRI, no `toRdf`. For a default-graph
+    dataset this is what C17's `flatten_export_repaired` expresses through `NewTriples`; it is NOT derived
+    from that theorem here (the forest groups statements by member name, C17 flattens them in order). -/
+def structOK (cfg : Cfg β) (d : List (DQuad β)) (ord ord2 : List (Term β)) : Bool :=
+  match encForest cfg d ord ord2 with
+  | some F => forestOK F d
+  | none => false
+
 end Encoder
 
 end RdfModel.C10
